@@ -3,7 +3,7 @@ Line-protocol driver for the autocovariance model (property C15).
 
   acov na ny nu ne nw k tol f <Ta na*na> <Pa na*ne> <Za ny*na> <Ua na*na> <H ny*nw> <covU diag ne> <covW diag nw> nsel <sel…>
       -> ok;S=<stability bits of [ξ; y]>;G=<(k+1)·nsel² cells>;R=<(k+1)·nsel² signed squared correlations>
-         (`f` = factor of rescale_stds applied before, 1 for none);  err:singular when the Lyapunov equation has no unique solution
+         (`f` = factor of rescale_stds applied before, 1 for none; or `fu,fw` = cumulative factors per kind of std);  err:singular when the Lyapunov equation has no unique solution
   cert na ny nu ne nw <Ta> <Pa> <Za> <H> <covU diag> <covW diag> <G0: (na+ny)² rationals, the implementation's cov_triangular_00>
       -> max |G0 - (𝒜 G0 𝒜ᵀ + ℬ Σ ℬᵀ)| as a rational (exact residual of the second-moment fixed point)
 -/
@@ -34,7 +34,12 @@ def runAcov (ws : List String) : Option String := do
   match ws with
   | na :: ny :: nu :: ne :: nw :: k :: tol :: f :: rest =>
     let na ← na.toNat?; let ny ← ny.toNat?; let nu ← nu.toNat?; let ne ← ne.toNat?; let nw ← nw.toNat?
-    let k ← k.toNat?; let tol ← QMat.parseRat? tol; let f ← QMat.parseRat? f
+    let k ← k.toNat?; let tol ← QMat.parseRat? tol
+    -- `f` = one factor for all stds, or `fu,fw` = cumulative factors of a sequence of rescale_stds(kind=…) calls
+    let (fu, fw) ← (match f.splitOn "," with
+      | [a] => (QMat.parseRat? a).map (fun a => (a, a))
+      | [a, b] => do let a ← QMat.parseRat? a; let b ← QMat.parseRat? b; pure (a, b)
+      | _ => none)
     let (Ta, rest) ← takeQMat na na rest
     let (Pa, rest) ← takeQMat na ne rest
     let (Za, rest) ← takeQMat ny na rest
@@ -48,7 +53,7 @@ def runAcov (ws : List String) : Option String := do
       let sel ← rest.mapM String.toNat?
       if sel.length ≠ nsel then none else
       let s0 : Sol := ⟨na, ny, nu, Ta, Pa, Za, Ua, H, QMat.diag du, QMat.diag dw, tol⟩
-      let s := if f = 1 then s0 else rescale s0 f
+      let s := if fu = 1 ∧ fw = 1 then s0 else if fu = fw then rescale s0 fu else rescaleKinds s0 fu fw
       match acov s sel k with
       | none => pure "err:singular"
       | some gs =>
